@@ -4879,6 +4879,8 @@ def translate(repo, overrides):
     L += guarded_section("dated3", lambda: dated3_section(toks))  # [dated3 extension] sixth increment: single_interval_from_bounds, the `Date` arms of MonthdayRange, intervals_from_bounds
     L += guarded_section("week", lambda: week_section(toks, lambda rel: raw_of[rel]))  # [week extension] seventh increment: WeekRange::next_change_hint
     L += guarded_section("week-dates", lambda: week_dates_section(toks))  # [week extension] count_days_in_month
+    L += guarded_section("weekday", lambda: weekday_section(toks, lambda rel: raw_of[rel]))  # [weekday extension] eighth increment: WeekDayRange::filter
+    L += guarded_section("weekday-hint", lambda: weekday_hint_section(toks, lambda rel: raw_of[rel]))  # [weekday extension] WeekDayRange::next_change_hint
     L += guarded_section("eval", lambda: eval_section(toks, lambda rel: raw_of[rel]))  # [eval extension] fifth increment: opening_hours.rs
     L += guarded_section("eval2", lambda: eval2_section(toks, lambda rel: raw_of[rel]))  # [eval2 extension] sixth increment: next_change_hint
     L += guarded_section("eval2-day", lambda: eval2_day_section(toks, lambda rel: raw_of[rel]))  # [eval2 extension] DaySelector::filter / next_change_hint
@@ -4888,6 +4890,7 @@ def translate(repo, overrides):
     L += guarded_section("iter", lambda: iter_section(toks))  # [iter extension] seventh increment: state / is_open / is_closed / is_unknown
     L += guarded_section("iter-next", lambda: iter_tdi_section(toks))  # [iter extension] TimeDomainIterator::next
     L += guarded_section("iter-new", lambda: iter_tdi_new_section(toks))  # [iter extension] TimeDomainIterator::new
+    L += guarded_section("timesel", lambda: timesel_section(toks))  # [timesel extension] eighth increment: is_00_24, is_immutable_full_day
     L.insert(L.index("import OH.Model.RustInt") + 1, "import OH.Model.RustTz")  # [tz extension]
     L.append("end OH.Generated.Arith")
     return "\n".join(L).replace("import OH.Model.RustInt\n", "import OH.Model.RustInt\nimport OH.Model.RustSeq\nimport OH.Model.RustVec\n", 1) + "\n"
@@ -12274,6 +12277,935 @@ def iter_tdi_new_section(toks):
     return L
 
 # ---- end of [iter extension] --------------------------------------------------------------------
+
+# [weekday extension] eighth increment (notes/RS2LEAN8-weekday.md): `impl DateFilter for ds::WeekDayRange` `filter` of
+# opening-hours/src/filter/date_filter.rs, chrono mode, on top of the week extension's front end (`WeekParser` / `WeekDatesGen`).
+# New constructs: `match self` over the struct-variant enum `WeekDayRange` (the type is generated from the declaration the tables
+# check in day.rs), the struct-variant VALUE `ds::WeekDayRange::Fixed { f: e, .. }`, the recursive call `VALUE.filter(date, ctx)`
+# (the definition gets a leading `fuel`; the theorems prove 2 suffice), `a || b` / `a && b` with their short circuit, `[bool; 5]`
+# indexing by `usize::from(u8)` with the `index out of bounds` outcome, `Weekday as u8` (chrono declares `Mon = 0 .. Sun = 6`: the
+# number chrono mode keeps), `x / LIT` on an unsigned type, `i64::saturating_neg`, `ds::add_days_saturating` and
+# `count_days_in_month` (the translated functions), and the context's calendars as by-name parameters
+# (`ext_public_contains` / `ext_school_contains` = `ctx.holidays.public/school.contains`).
+WD_HDR = "impl DateFilter for ds :: WeekDayRange"
+WD_SIG = "fn filter < L > ( & self , NaiveDate , & Context < L > ) -> bool where Localize ,"
+WD_DECLS = [
+    (False, "pub enum WeekDayRange { Fixed { range : RangeInclusive < Weekday > , offset : i64 , nth_from_start : [ bool ; 5 ] , nth_from_end : [ bool ; 5 ] , } , Holiday { kind : HolidayKind , offset : i64 , } , }",
+     "`enum WeekDayRange { Fixed { range, offset, nth_from_start, nth_from_end }, Holiday { kind, offset } }`"),
+    (False, "pub enum HolidayKind { Public , School , }", "`enum HolidayKind { Public, School }`"),
+    (False, "pub use chrono :: Weekday ;", "`pub use chrono::Weekday;` (`ds::Weekday` is read as chrono's)"),
+]
+WD_FIELDS = {"Fixed": [("range", ("rng", "wd")), ("offset", "i64"), ("nth_from_start", "arr"), ("nth_from_end", "arr")],
+             "Holiday": [("kind", "kind"), ("offset", "i64")]}
+WD_EXT = "ext_public_contains ext_school_contains"
+
+
+class WeekDayParser(WeekParser):
+    def primary(self, nostruct):
+        t = [self.peek(j).text for j in range(6)]
+        if t == ["ds", "::", "WeekDayRange", "::", "Fixed", "{"] and not nostruct:
+            # the struct-variant VALUE `ds::WeekDayRange::Fixed { f: e, .. }`
+            line = self.peek().line
+            self.i += 5
+            self.eat("{")
+            fields = []
+            while not self.at("}"):
+                fn = self.ident()
+                self.eat(":")
+                fields.append((fn, self.expr()))
+                if not self.at("}"):
+                    self.eat(",")
+            self.eat("}")
+            return Node("wdlit", line, fields=fields)
+        return WeekParser.primary(self, nostruct)
+
+
+class WeekDayGen(WeekDatesGen):
+    def __init__(self, rel, fname, uses, datelike, dname, cname):
+        WeekGen.__init__(self, rel, fname, fname, uses, datelike)
+        self.ret = "bool"
+        self.dname, self.cname, self.recursive = dname, cname, False
+
+    def site(self, n):
+        return f'"WeekDayRange::{self.fname}:{n.line}"'
+
+    def ret_k(self, a, t):
+        if self.strip(t) != "bool":
+            fail(self.rel, f"{self.fname}: a returned value has type {t}, the function returns bool")
+        return [f".ok {a}"]
+
+    def ex(self, n, env, want=None):
+        k = n.kind
+        if k == "var" and n.name in env and env[n.name][1] in ("ctx",):
+            fail(self.w(n), "the context is only read as `ctx.holidays.public` / `ctx.holidays.school` or passed on to `filter` (weekday functions)")
+        if k == "cast":
+            pre, a, t = self.ex(n.e, env)
+            to = n.to[1] if isinstance(n.to, tuple) and n.to[0] == "int" else None
+            if self.strip(t) == "wd":
+                if to != "u8":
+                    fail(self.w(n), "only `Weekday as u8` is translated (weekday functions)")
+                if ("chrono", "Weekday") not in self.uses:
+                    fail(self.w(n), "`Weekday` is read as chrono's, but the file does not import it from there")
+                return pre, a, "u8"  # chrono: `Mon = 0, .., Sun = 6`, the number chrono mode keeps
+        if k == "range" and n.incl:
+            pl, a, tl = self.ex(n.l, env)
+            pr, b, tr = self.ex(n.r, env)
+            tl, tr = self.strip(tl), self.strip(tr)
+            if tl != tr or tl not in WEEK_INTS + ("wd",):
+                fail(self.w(n), "only `a..=b` over one integer type or over `Weekday` is translated (weekday functions)")
+            return pl + pr, f"(RangeInclusive.mk {a} {b})", ("rng", tl)
+        if k == "method" and n.name == "saturating_neg" and not n.args:
+            pre, a, t = self.ex(n.e, env)
+            if self.strip(t) != "i64":
+                fail(self.w(n), f"`.saturating_neg()` on a value of type {t} is outside the translated subset (weekday functions)")
+            return pre, f"(saturatingNeg .i64 {a})", "i64"
+        if k == "method" and n.name == "contains" and len(n.args) == 1:
+            pre, a, t = self.ex(n.e, env)
+            if self.strip(t) != "cal":
+                fail(self.w(n), f"`.contains(..)` on a value of type {t} is outside the translated subset (weekday functions)")
+            p2, b, t2 = self.ex(n.args[0], env)
+            if self.strip(t2) != "date":
+                fail(self.w(n), f"`calendar.contains(..)` of a value of type {t2}")
+            return pre + p2, f"({a} {b})", "bool"
+        if k == "method" and n.name == self.fname and n.e.kind == "wdlit":
+            pre, a, t = self.ex(n.e, env)
+            if (len(n.args) != 2 or n.args[0].kind != "var" or n.args[1].kind != "var" or n.args[1].name != self.cname
+                    or n.args[0].name not in env or env[n.args[0].name][1] != "date"):
+                fail(self.w(n), f"the recursive call is translated as `VALUE.{self.fname}(<a date variable>, {self.cname})` only")
+            self.recursive = True
+            v = self.fresh()
+            return pre + [f"bnd ({self.fname} fuel {a} {env[n.args[0].name][0]} {WD_EXT}) fun {v} =>"], v, "bool"
+        if k == "wdlit":
+            want_f = WD_FIELDS["Fixed"]
+            if sorted(f for f, _ in n.fields) != sorted(f for f, _ in want_f) or len(n.fields) != len(want_f):
+                fail(self.w(n), "`WeekDayRange::Fixed { .. }` has to give exactly the fields of the declaration")
+            pre, atoms = [], {}
+            for fn, fe in n.fields:  # Rust evaluates the fields in the order they are written
+                p, a, t = self.ex(fe, env)
+                if self.strip(t) != dict(want_f)[fn]:
+                    fail(self.w(fe), f"field `{fn}`: expected {dict(want_f)[fn]}, found {t}")
+                pre += p
+                atoms[fn] = a
+            return pre, "(.Fixed " + " ".join(atoms[f] for f, _ in want_f) + ")", "wdr"
+        if k == "call" and getattr(n, "alias", None) == "ds" and n.path == ["add_days_saturating"] and len(n.args) == 2:
+            pa, a, ta = self.ex(n.args[0], env)
+            pb, b, tb = self.ex(n.args[1], env)
+            if self.strip(ta) != "date" or self.strip(tb) != "i64":
+                fail(self.w(n), f"`ds::add_days_saturating` of ({ta}, {tb})")
+            v = self.fresh()
+            return pa + pb + [f"bnd (Day.add_days_saturating {a} {b}) fun {v} =>"], v, "date"
+        if k == "call" and n.path == ["count_days_in_month"] and len(n.args) == 1 and getattr(n, "alias", None) is None:
+            if ("crate::utils::dates", "count_days_in_month") not in self.uses:
+                fail(self.w(n), "`count_days_in_month` is read as `crate::utils::dates`', but the file does not import it from there")
+            if any(nm == "week-dates" for nm, _ in SKIPPED_SECTIONS):
+                fail(self.w(n), "`count_days_in_month` was not translated in this run (section week-dates)")
+            pa, a, ta = self.ex(n.args[0], env)
+            if self.strip(ta) != "date":
+                fail(self.w(n), f"`count_days_in_month` of a value of type {ta}")
+            v = self.fresh()
+            return pa + [f"bnd (Dates.count_days_in_month {a}) fun {v} =>"], v, "u8"
+        if k == "call" and n.path == ["usize", "from"] and len(n.args) == 1:
+            pa, a, ta = self.ex(n.args[0], env)
+            if self.strip(ta) != "u8":
+                fail(self.w(n), f"`usize::from` of a value of type {ta} is outside the translated subset")
+            return pa, a, "usize"
+        if k == "index":
+            pa, a, ta = self.ex(n.e, env)
+            pi, i, ti = self.ex(n.idx, env)
+            if self.strip(ta) != "arr" or ti != "usize":
+                fail(self.w(n), f"indexing a value of type {ta} by a value of type {ti} is outside the translated subset (weekday functions)")
+            v = self.fresh()
+            return pa + pi + [f"match {a}.toList[({i}).toNat]? with", '| none => .error (.panic "index out of bounds")', f"| some {v} =>"], v, "bool"
+        if k == "bin" and n.op == "/":
+            pl, a, tl = self.ex(n.l, env)
+            tl = self.strip(tl)
+            if tl != "u8" or n.r.kind != "lit" or n.r.value == 0:
+                fail(self.w(n), "only `x / LIT` on a `u8` with a non-zero literal is translated (weekday functions)")
+            pr, b, tr = self.ex(n.r, env, tl)
+            return pl + pr, f"({a} / {b})", tl  # unsigned: truncated = floor division; a non-zero literal cannot fail
+        return WeekDatesGen.ex(self, n, env, want)
+
+    def val(self, n, env, want, ret_k, k):
+        if n.kind == "paren":
+            return self.val(n.e, env, want, ret_k, k)
+        if n.kind == "bin" and n.op in ("||", "&&"):
+            def k2(a, t):
+                if self.strip(t) != "bool":
+                    fail(self.w(n), f"`{n.op}` on a value of type {t}")
+                rest = ["  " + x for x in self.val(n.r, env, "bool", ret_k, k)]
+                if n.op == "||":
+                    return [f"if {a} then"] + ["  " + x for x in k("true", "bool")] + ["else"] + rest
+                return [f"if {a} then"] + rest + ["else"] + ["  " + x for x in k("false", "bool")]
+            return self.val(n.l, env, "bool", ret_k, k2)
+        return WeekDatesGen.val(self, n, env, want, ret_k, k)
+
+    def stmts(self, ss, tail, env):
+        if ss and ss[0].kind == "let" and ss[0].e.kind == "match":
+            # `let calendar = match kind { ds::HolidayKind::Public => &ctx.holidays.public, ds::HolidayKind::School => &ctx.holidays.school };`
+            s, m = ss[0], ss[0].e
+            if s.mut or s.ann is not None or m.scrut.kind != "var" or m.scrut.name not in env or self.strip(env[m.scrut.name][1]) != "kind":
+                fail(self.w(s), "only `let x = match <HolidayKind> { .. };` is a translated `let .. = match` (weekday functions)")
+            arms = []
+            for pat, body in m.arms:
+                b = body.tail if body.kind == "block" and not body.stmts else None
+                ok = (pat.kind == "pvariant" and pat.enum == "HolidayKind" and not getattr(pat, "binds", None) and b is not None and b.kind == "ref"
+                      and b.e.kind == "field" and b.e.name in ("public", "school") and b.e.e.kind == "field" and b.e.e.name == "holidays"
+                      and b.e.e.e.kind == "var" and b.e.e.e.name == self.cname)
+                if not ok:
+                    fail(self.w(pat), f"only `ds::HolidayKind::X => &{self.cname}.holidays.public / .school` is a translated arm here (weekday functions)")
+                arms.append((pat.name, b.e.name))
+            if sorted(a for a, _ in arms) != ["Public", "School"]:
+                fail(self.w(m), "the match on `HolidayKind` has to have exactly the arms `Public` and `School`")
+            env2 = dict(env)
+            env2[s.name] = (lname(s.name), "cal", False)
+            return ([f"let {lname(s.name)} : Int → Bool := (match {env[m.scrut.name][0]} with " + " ".join(f"| .{a} => ext_{c}_contains" for a, c in arms) + ")"]
+                    + self.stmts(ss[1:], tail, env2))
+        return WeekDatesGen.stmts(self, ss, tail, env)
+
+
+def weekday_section(toks, raw):
+    """the Lean text (lines) of `WeekDayRange::filter`"""
+    for rel in (F_DF, F_DAY, F_RANGE, F_DATES):
+        if rel in EXCLUDED_FILES:
+            fail(rel, "the main pipeline left this file out; the weekday functions use its types and functions")
+    tk, dtk = toks(F_DF), toks(F_DAY)
+    for is_raw, text, what in WD_DECLS:
+        if not week_find(raw(F_DAY) if is_raw else dtk, text.split()):
+            fail(F_DAY, f"{what} not found (tables of the weekday extension)")
+    uses = file_uses(tk)
+    if ALIASES[F_DF]["ds"] != "opening_hours_syntax::rules::day" or not has_use_as(tk, ALIASES[F_DF]["ds"], "ds"):
+        fail(F_DF, "`ds::` is read as `opening_hours_syntax::rules::day::`, but the file does not import it under that name")
+    datelike = ("chrono::prelude", "Datelike") in uses
+    name = "filter"
+    at = find_impl_fns(tk, F_DF, "WeekDayRange", None, [name], WD_HDR.split())[name]
+    got = d3_sig_text(tk, at)
+    if got.rstrip() != WD_SIG:
+        fail(f"{F_DF}:{tk[at].line}", f"the signature of `WeekDayRange::{name}` changed: expected `{WD_SIG}`, found `{got}` (tables of the weekday extension)")
+    p = WeekDayParser(tk, F_DF, {"WeekDayRange"}, uses=std_uses(tk), enums=set(), aliases={"ds"}, modelled=True, penums={"WeekDayRange", "HolidayKind"})
+    p.i = at
+    node = p.fn()
+    (dname, _), (cname, _) = node.params
+    g = WeekDayGen(F_DF, name, uses, datelike, dname, cname)
+    m = node.body.tail
+    if node.body.stmts or m.kind != "match" or m.scrut.kind != "self":
+        fail(f"{F_DF}:{node.line}", f"`WeekDayRange::{name}` is translated as one `match self {{ .. }}` only")
+    seen, arms_l = [], []
+    for pat, body in m.arms:
+        if pat.kind != "svariant" or pat.enum != "WeekDayRange" or pat.name not in WD_FIELDS or pat.name in seen or getattr(pat, "guard", None) is not None:
+            fail(g.w(pat), "only the arms `ds::WeekDayRange::Fixed { .. }` / `ds::WeekDayRange::Holiday { .. }`, once each, are translated")
+        seen.append(pat.name)
+        env = {dname: (lname(dname), "date", False), cname: (lname(cname), "ctx", False)}
+        binders = []
+        given = dict(pat.fields)
+        if any(f not in dict(WD_FIELDS[pat.name]) for f in given) or (len(given) != len(WD_FIELDS[pat.name]) and not pat.rest):
+            fail(g.w(pat), f"the pattern of `{pat.name}` does not name the fields of the declaration")
+        for f, ty in WD_FIELDS[pat.name]:
+            sub = given.get(f)
+            if sub is None:
+                binders.append("_")
+                continue
+            if sub[0] != "bind" or sub[1] in env:
+                fail(g.w(pat), f"field pattern of `{f}` is outside the translated subset (weekday functions)")
+            env[sub[1]] = (lname(sub[1]), ("ref", ty), False)  # `match self` on `&Self`: the bindings are references
+            binders.append(lname(sub[1]))
+        if body.kind != "block":
+            fail(g.w(pat), "the arm is not a block")
+        arms_l += [f"| .{pat.name} " + " ".join(binders) + " =>"] + ["  " + x for x in g.stmts(body.stmts, body.tail, env)]
+    if sorted(seen) != ["Fixed", "Holiday"]:
+        fail(g.w(m), "`match self` has to have the arms `Fixed` and `Holiday`")
+    if g.loops or g.conts:
+        fail(f"{F_DF}:{node.line}", f"`WeekDayRange::{name}`: a loop / a nested `return` here is outside the translated subset")
+    if not g.recursive:
+        fail(f"{F_DF}:{node.line}", f"`WeekDayRange::{name}` does not call itself any more: the parameter `fuel` of the tables of the weekday extension is stale")
+    L = ["/-! ### [weekday extension] `impl DateFilter for ds::WeekDayRange` `filter` (opening-hours/src/filter/date_filter.rs), chrono mode -/", "",
+         "/-- `enum HolidayKind` (opening-hours-syntax/src/rules/day.rs; declaration checked on every run) -/",
+         "inductive HolidayKind where", "  | Public", "  | School", "  deriving DecidableEq, Repr", "",
+         "/-- `enum WeekDayRange` (opening-hours-syntax/src/rules/day.rs; declaration checked on every run); a `Weekday` is its number of days from Monday, `[bool; 5]` a `Vector Bool 5` -/",
+         "inductive WeekDayRange where",
+         "  | Fixed (range : RangeInclusive Int) (offset : Int) (nth_from_start : Vector Bool 5) (nth_from_end : Vector Bool 5)",
+         "  | Holiday (kind : HolidayKind) (offset : Int)", "",
+         "namespace WeekDayRange", "",
+         f"/-- `<L> WeekDayRange::{name}(&self, {dname}: NaiveDate, {cname}: &Context<L>) -> bool` ({F_DF}:{node.line}); `fuel` = the depth of the recursive calls "
+         f"allowed (OH/Props/ArithC01WeekDay.lean: 2 suffice); ext_public_contains / ext_school_contains = `{cname}.holidays.public.contains` / `.school.contains`, "
+         f"by-name parameters (the calendars of the context are not translated here) -/",
+         f"def {name} (fuel : Nat) (self : WeekDayRange) ({lname(dname)} : Int) ({WD_EXT} : Int → Bool) : R Bool :=",
+         "  match fuel with", "  | 0 => .error (.panic loopFuelExhausted)", "  | fuel + 1 =>", "  match self with"]
+    L += ["  " + x for x in arms_l]
+    L += ["", "end WeekDayRange", ""]
+    return L
+
+# ---- [weekday extension], second part: `WeekDayRange::next_change_hint` (same impl block) ----
+# `Some({ block })` with `?` inside the block (the `none => .ok none` arm), the pattern `field: _`, `calendar.first_after(d)` as a
+# second by-name parameter per calendar, `OPT.map(|x| e).unwrap_or_else(|| DATE_END.date())` as a two-armed match.
+WD_HINT_SIG = "fn next_change_hint < L > ( & self , NaiveDate , & Context < L > ) -> Option < NaiveDate > where Localize ,"
+WD_EXT_HINT = WD_EXT + " ext_public_first_after ext_school_first_after"
+
+
+class WeekDayHintParser(WeekDayParser):
+    def dated_svariant_fields(self, enum, variant, line):
+        """`{ f, g: _, .. }` after `Enum::Variant` in a pattern (the base form plus `field: _`)"""
+        self.eat("{")
+        fields, rest = [], False
+        while not self.at("}"):
+            if self.at(".."):
+                self.i += 1
+                rest = True
+                if not self.at("}"):
+                    fail(self.where(), "`..` has to end the pattern")
+                break
+            ftk = self.peek()
+            fn = self.ident()
+            if not re.fullmatch(r"[a-z_][a-z0-9_]*", fn) or re.fullmatch(r"(tmp|ext)\d+", fn):
+                fail(self.where(ftk), f"field pattern `{fn}`")
+            sub = ("bind", fn)
+            if self.at(":"):
+                self.i += 1
+                if not self.at("_"):
+                    fail(self.where(), "only `field` and `field: _` are translated inside this struct-variant pattern (weekday functions)")
+                self.i += 1
+                sub = None
+            if sub is not None:
+                fields.append((fn, sub))
+            else:
+                rest = True  # an ignored field: as if it were covered by `..` (the name is still checked against the declaration below)
+                fields.append((fn, ("wild",)))
+            if not self.at("}"):
+                self.eat(",")
+        self.eat("}")
+        return Node("svariant", line, enum=enum, name=variant, fields=fields, rest=rest)
+
+
+class WeekDayHintGen(WeekDayGen):
+    def __init__(self, rel, fname, uses, datelike, dname, cname):
+        WeekDayGen.__init__(self, rel, fname, uses, datelike, dname, cname)
+        self.ret = ("opt", "date")
+
+    def ret_k(self, a, t):
+        return WeekGen.ret_k(self, a, t)
+
+    def k_some(self, a, t):
+        if self.strip(t) != "date":
+            fail(self.rel, f"{self.fname}: the block inside `Some(..)` has a value of type {t}")
+        return [f".ok (some {a})"]
+
+    def block_k(self, ss, tail, env, k):
+        """the statements of a value block, then its tail; the value leaves go to `k`, a failing `?` ends the function with `None`"""
+        if ss:
+            s = ss[0]
+            if s.kind != "let" or s.ann is not None or s.mut or self.has_return(s.e):
+                fail(self.w(s), "only plain `let x = e;` statements are translated inside `Some({ .. })` (weekday functions)")
+            pre, a, t = self.ex(s.e, env)
+            env2 = dict(env)
+            env2[s.name] = (lname(s.name), t, False)
+            return pre + [f"let {lname(s.name)} := {a}"] + self.block_k(ss[1:], tail, env2, k)
+        n = tail
+        if n.kind == "if":
+            if n.a is None or n.b is None or n.a.kind != "block" or n.b.kind != "block":
+                fail(self.w(n), "an `if` without `else` as a value is outside the translated subset (weekday functions)")
+            pre, c, t = self.ex(n.c, env)
+            if t != "bool":
+                fail(self.w(n), "the condition is not a `bool`")
+            return (pre + [f"if {c} then"] + ["  " + x for x in self.block_k(n.a.stmts, n.a.tail, env, k)] + ["else"]
+                    + ["  " + x for x in self.block_k(n.b.stmts, n.b.tail, env, k)])
+        if n.kind == "try":
+            pre, a, t = self.ex(n.e, env)
+            if t != ("opt", "date"):
+                fail(self.w(n), "`?` on something that is not an `Option<NaiveDate>` (weekday functions)")
+            v = self.fresh()
+            return pre + [f"match {a} with", "| none => .ok none", f"| some {v} =>"] + ["  " + x for x in k(v, "date")]
+        if (n.kind == "method" and n.name == "unwrap_or_else" and len(n.args) == 1 and n.args[0].kind == "thunk"
+                and n.e.kind == "method" and n.e.name == "map" and len(n.e.args) == 1 and n.e.args[0].kind == "closure" and n.e.args[0].pat is not None):
+            # `OPT.map(|x| e).unwrap_or_else(|| d)`: `match OPT with | some x => e | none => d` (both closures are evaluated lazily)
+            pre, a, t = self.ex(n.e.e, env)
+            if t != ("opt", "date"):
+                fail(self.w(n), f"`.map(..).unwrap_or_else(..)` on a value of type {t} is outside the translated subset")
+            cl = n.e.args[0]
+            if cl.pat in env:
+                fail(self.w(cl), f"the closure parameter `{cl.pat}` shadows a variable: outside the translated subset")
+            env2 = dict(env)
+            env2[cl.pat] = (lname(cl.pat), "date", False)
+            p1, a1, t1 = self.ex(cl.e, env2)
+            p2, a2, t2 = self.ex(n.args[0].e, env)
+            if self.strip(t1) != "date" or self.strip(t2) != "date":
+                fail(self.w(n), f"`.map(..).unwrap_or_else(..)`: the closures give {t1} / {t2}, expected dates")
+            return (pre + [f"match {a} with", f"| some {lname(cl.pat)} =>"] + ["  " + x for x in p1 + k(a1, "date")]
+                    + ["| none =>"] + ["  " + x for x in p2 + k(a2, "date")])
+        pre, a, t = self.ex(n, env)
+        return pre + k(a, t)
+
+    def ex(self, n, env, want=None):
+        if n.kind == "method" and n.name == "first_after" and len(n.args) == 1:
+            pre, a, t = self.ex(n.e, env)
+            if self.strip(t) != "cal":
+                fail(self.w(n), f"`.first_after(..)` on a value of type {t} is outside the translated subset (weekday functions)")
+            p2, b, t2 = self.ex(n.args[0], env)
+            if self.strip(t2) != "date":
+                fail(self.w(n), f"`calendar.first_after(..)` of a value of type {t2}")
+            return pre + p2, f"({a}_first_after {b})", ("opt", "date")
+        if n.kind == "method" and n.name == "date" and not n.args and n.e.kind == "var" and n.e.name == "DATE_END" and "DATE_END" not in env:
+            mod, _, _, lean = CRATE_CONSTS["DATE_END"]
+            if (mod, "DATE_END") not in self.uses:
+                fail(self.w(n), f"`DATE_END` is read as `{mod}::DATE_END`, but the file does not import it from there")
+            return [], lean, "date"
+        return WeekDayGen.ex(self, n, env, want)
+
+    def stmts(self, ss, tail, env):
+        # an arm of `match self`: `None`, or `Some({ let calendar = match kind { .. }; .. })`
+        if not ss and getattr(tail, "wd_marker", False):
+            self.box["env"] = env
+            return []
+        if ss:
+            fail(self.w(ss[0]), "statements in an arm of `match self` are outside the translated subset (`next_change_hint`)")
+        if tail.kind == "none":
+            return [".ok none"]
+        if tail.kind != "some" or tail.e.kind != "blockexpr":
+            fail(self.w(tail), "only `None` and `Some({ .. })` are translated arms of `next_change_hint` (weekday functions)")
+        b = tail.e.b
+        if not (b.stmts and b.stmts[0].kind == "let" and b.stmts[0].e.kind == "match"):
+            fail(self.w(b), "the block inside `Some(..)` has to start with `let calendar = match kind { .. };`")
+        s = b.stmts[0]
+        marker = Node("unit", s.line, wd_marker=True)
+        box = {}
+        self.box = box
+        head = WeekDayGen.stmts(self, [s], marker, env)  # the `let .. = match kind { .. }` form of `filter`; the rest comes back through the marker
+        cal = lname(s.name)
+        # the same selection for the second by-name parameter of the calendar (`first_after`)
+        head2 = [head[0].replace(f"let {cal} : Int → Bool :=", f"let {cal}_first_after : Int → Option Int :=").replace("_contains", "_first_after")]
+        return head + head2 + self.block_k(b.stmts[1:], b.tail, box["env"], self.k_some)
+
+
+def weekday_hint_section(toks, raw):
+    """the Lean text (lines) of `WeekDayRange::next_change_hint`"""
+    if any(nm == "weekday" for nm, _ in SKIPPED_SECTIONS):
+        fail(F_DF, "the section `weekday` (the types `WeekDayRange` / `HolidayKind`) was not translated in this run")
+    tk = toks(F_DF)
+    uses = file_uses(tk)
+    datelike = ("chrono::prelude", "Datelike") in uses
+    name = "next_change_hint"
+    at = find_impl_fns(tk, F_DF, "WeekDayRange", None, [name], WD_HDR.split())[name]
+    got = d3_sig_text(tk, at)
+    if got.rstrip() != WD_HINT_SIG:
+        fail(f"{F_DF}:{tk[at].line}", f"the signature of `WeekDayRange::{name}` changed: expected `{WD_HINT_SIG}`, found `{got}` (tables of the weekday extension)")
+    p = WeekDayHintParser(tk, F_DF, {"WeekDayRange"}, uses=std_uses(tk), enums=set(), aliases={"ds"}, modelled=True, penums={"WeekDayRange", "HolidayKind"})
+    p.i = at
+    node = p.fn()
+    (dname, _), (cname, _) = node.params
+    g = WeekDayHintGen(F_DF, name, uses, datelike, dname, cname)
+    m = node.body.tail
+    if node.body.stmts or m.kind != "match" or m.scrut.kind != "self":
+        fail(f"{F_DF}:{node.line}", f"`WeekDayRange::{name}` is translated as one `match self {{ .. }}` only")
+    seen, arms_l = [], []
+    for pat, body in m.arms:
+        if pat.kind != "svariant" or pat.enum != "WeekDayRange" or pat.name not in WD_FIELDS or pat.name in seen or getattr(pat, "guard", None) is not None:
+            fail(g.w(pat), "only the arms `ds::WeekDayRange::Fixed { .. }` / `ds::WeekDayRange::Holiday { .. }`, once each, are translated")
+        seen.append(pat.name)
+        env = {dname: (lname(dname), "date", False), cname: (lname(cname), "ctx", False)}
+        binders = []
+        given = dict(pat.fields)
+        if any(f not in dict(WD_FIELDS[pat.name]) for f in given) or len(given) != len(pat.fields) or (len(given) != len(WD_FIELDS[pat.name]) and not pat.rest):
+            fail(g.w(pat), f"the pattern of `{pat.name}` does not name the fields of the declaration")
+        for f, ty in WD_FIELDS[pat.name]:
+            sub = given.get(f)
+            if sub is None or sub[0] == "wild":
+                binders.append("_")
+                continue
+            if sub[0] != "bind" or sub[1] in env:
+                fail(g.w(pat), f"field pattern of `{f}` is outside the translated subset (weekday functions)")
+            env[sub[1]] = (lname(sub[1]), ("ref", ty), False)
+            binders.append(lname(sub[1]))
+        if body.kind != "block":
+            fail(g.w(pat), "the arm is not a block")
+        arms_l += [f"| .{pat.name} " + " ".join(binders) + " =>"] + ["  " + x for x in g.stmts(body.stmts, body.tail, env)]
+    if sorted(seen) != ["Fixed", "Holiday"]:
+        fail(g.w(m), "`match self` has to have the arms `Fixed` and `Holiday`")
+    if g.loops or g.conts or g.recursive:
+        fail(f"{F_DF}:{node.line}", f"`WeekDayRange::{name}`: a loop / a nested `return` / a recursive call here is outside the translated subset")
+    L = ["/-! ### [weekday extension] `impl DateFilter for ds::WeekDayRange` `next_change_hint` (opening-hours/src/filter/date_filter.rs), chrono mode -/", "",
+         "namespace WeekDayRange", "",
+         f"/-- `<L> WeekDayRange::{name}(&self, {dname}: NaiveDate, {cname}: &Context<L>) -> Option<NaiveDate>` ({F_DF}:{node.line}); ext_X_contains / ext_X_first_after = "
+         f"`{cname}.holidays.X.contains` / `.first_after`, by-name parameters (the calendars of the context are not translated here) -/",
+         f"def {name} (self : WeekDayRange) ({lname(dname)} : Int) ({WD_EXT} : Int → Bool) (ext_public_first_after ext_school_first_after : Int → Option Int) : R (Option Int) :=",
+         "  match self with"]
+    L += ["  " + x for x in arms_l]
+    L += ["", "end WeekDayRange", ""]
+    return L
+# ---- end of [weekday extension] ------------------------------------------------------------------
+
+# ------------------------------------------------------------------------------------------------
+# [timesel extension] eighth increment: the three predicates of the time selector that the eval2 section takes BY NAME
+# (`TimeSelector::is_00_24`, `TimeSpan::fixed_range` of opening-hours-syntax/src/rules/time.rs; `<TimeSelector as
+# TimeFilter>::is_immutable_full_day`, `<TimeSpan as TimeFilter>::is_immutable_full_day` of
+# opening-hours/src/filter/time_filter.rs).  A self-contained small front end (own expression grammar and typed
+# generator, region-local): `struct TimeSelector`, `struct TimeSpan`, `enum Time` are READ from their declarations
+# (field types from the table TS_TYPES, `PartialEq` must be derived where `==` is used); `chrono::Duration` is the
+# abstract type parameter `Dur` with decidable equality.  Accepted expressions: `self`, field access, `.len()`,
+# `.first()`, `.iter().all(|x| ..)` (an auxiliary structural recursion `<fn>.all1`), `==`, `&&` (a calling right operand
+# runs only when the left one is true), `&e` / `*e` (value semantics), `Some(e)` / `None` / `true` / `false` / integer
+# literals, `a..b`, `Time::Fixed(e)`, `ExtendedTime::MIDNIGHT_nn` (the generated constants), `Self { f: e, .. }` with all
+# fields, calls of the functions translated HERE (`Self::fixed_range`, `TimeSpan::fixed_range`,
+# `span.is_immutable_full_day()`).  Anything else: an error naming file:line.
+F_TS_TIME = "opening-hours-syntax/src/rules/time.rs"
+F_TS_TF = "opening-hours/src/filter/time_filter.rs"
+TS_TYPES = {  # declared field / parameter / result types (token texts joined by a blank) -> internal type
+    "Vec < TimeSpan >": ("list", "Span"), "Range < Time >": ("range", "Time"), "bool": "bool",
+    "Option < Duration >": ("opt", "Dur"), "ExtendedTime": "ET", "VariableTime": "VT", "Self": "Self", "& self": "Self",
+}
+TS_LEAN = {"Span": "TimeSpan Dur", "Sel": "TimeSelector Dur", "Time": "Time", "bool": "Bool", "ET": "ExtendedTime",
+           "VT": "VariableTime", "Dur": "Dur", "usize": "Int"}
+TS_CONSTS = ("MIDNIGHT_00", "MIDNIGHT_24", "MIDNIGHT_48")
+
+
+def ts_lean_ty(t, top=True):
+    if isinstance(t, tuple):
+        s = {"list": "List", "opt": "Option", "range": "Range"}[t[0]] + " " + ts_lean_ty(t[1], False)
+        return s if top else f"({s})"
+    s = TS_LEAN[t]
+    return s if top or " " not in s else f"({s})"
+
+
+TS_LEAN_KEYWORDS = {"end", "from", "at", "in", "do", "then", "else", "if", "let", "have", "show", "fun", "by", "with", "open", "where", "deriving", "instance", "rest"}
+
+
+def ts_name(x):
+    """a Rust name that is a Lean keyword (or the `rest` of the auxiliary recursions) is quoted"""
+    return f"«{x}»" if x in TS_LEAN_KEYWORDS and x != "rest" else ("rest_" if x == "rest" else x)
+
+
+class TsParser:
+    def __init__(self, toks, fname, i):
+        self.toks, self.fname, self.i = toks, fname, i
+
+    def peek(self, k=0):
+        return self.toks[self.i + k]
+
+    def where(self, tk=None):
+        return f"{self.fname}:{(tk or self.peek()).line}"
+
+    def eat(self, text):
+        tk = self.peek()
+        if tk.text != text:
+            fail(self.where(tk), f"expected `{text}`, found `{tk.text}`: outside the translated subset [timesel]")
+        self.i += 1
+        return tk
+
+    def ident(self):
+        tk = self.peek()
+        if tk.kind != "id":
+            fail(self.where(tk), f"expected an identifier, found `{tk.text}` [timesel]")
+        self.i += 1
+        return tk
+
+    def type_until(self, stops):
+        out, depth = [], 0
+        while True:
+            tk = self.peek()
+            if tk.kind == "eof":
+                fail(self.where(tk), "unterminated type [timesel]")
+            if depth == 0 and tk.text in stops:
+                break
+            if tk.text == "<":
+                depth += 1
+            elif tk.text == ">":
+                depth -= 1
+            out.append(tk.text)
+            self.i += 1
+        s = " ".join(out)
+        if s not in TS_TYPES:
+            fail(self.where(), f"type `{s}` is outside the translated subset [timesel]")
+        return TS_TYPES[s]
+
+    # expr := eq ('&&' eq)* ; eq := un ('==' un)? ; un := ('&'|'*') un | post ('..' post)?
+    def expr(self):
+        e = self.eq()
+        while self.peek().text == "&&":
+            tk = self.eat("&&")
+            e = ("and", tk.line, e, self.eq())
+        if self.peek().text in ("||", "!=", "<", ">", "<=", ">=", "+", "-", "?", "as"):
+            fail(self.where(), f"operator `{self.peek().text}` is outside the translated subset [timesel]")
+        return e
+
+    def eq(self):
+        a = self.rng()
+        if self.peek().text == "==":
+            tk = self.eat("==")
+            return ("eq", tk.line, a, self.rng())
+        return a
+
+    def rng(self):
+        a = self.un()
+        if self.peek().text == "..":
+            tk = self.eat("..")
+            return ("range", tk.line, a, self.un())
+        return a
+
+    def un(self):
+        tk = self.peek()
+        if tk.text in ("&", "*"):
+            self.i += 1
+            return ("ref", tk.line, self.un())
+        return self.post()
+
+    def args(self):
+        self.eat("(")
+        out = []
+        while self.peek().text != ")":
+            out.append(self.expr())
+            if self.peek().text != ")":
+                self.eat(",")
+        self.eat(")")
+        return out
+
+    def post(self):
+        e = self.prim()
+        while self.peek().text == ".":
+            self.eat(".")
+            name = self.ident()
+            if self.peek().text == "(":
+                if self.peek(1).text == "|":  # one closure argument `|x| e`
+                    self.eat("(")
+                    self.eat("|")
+                    x = self.ident()
+                    self.eat("|")
+                    body = self.expr()
+                    self.eat(")")
+                    e = ("mclosure", name.line, e, name.text, x.text, body)
+                else:
+                    e = ("method", name.line, e, name.text, self.args())
+            else:
+                e = ("field", name.line, e, name.text)
+        return e
+
+    def prim(self):
+        tk = self.peek()
+        if tk.kind == "num":
+            self.i += 1
+            if not tk.text.isdigit():
+                fail(self.where(tk), f"literal `{tk.text}` is outside the translated subset [timesel]")
+            return ("num", tk.line, int(tk.text))
+        if tk.text == "(":
+            self.eat("(")
+            e = self.expr()
+            self.eat(")")
+            return e
+        if tk.kind != "id":
+            fail(self.where(tk), f"`{tk.text}` is outside the translated subset [timesel]")
+        self.i += 1
+        if tk.text in ("true", "false", "None", "self"):
+            return ("atom", tk.line, tk.text)
+        if tk.text == "Some":
+            a = self.args()
+            if len(a) != 1:
+                fail(self.where(tk), "`Some` takes one argument [timesel]")
+            return ("some", tk.line, a[0])
+        if self.peek().text == "::":
+            self.eat("::")
+            name = self.ident()
+            if self.peek().text == "(":
+                return ("pathcall", tk.line, tk.text, name.text, self.args())
+            return ("path", tk.line, tk.text, name.text)
+        if tk.text == "Self" and self.peek().text == "{":
+            self.eat("{")
+            fields = []
+            while self.peek().text != "}":
+                f = self.ident()
+                self.eat(":")
+                fields.append((f.text, self.expr()))
+                if self.peek().text != "}":
+                    self.eat(",")
+            self.eat("}")
+            return ("slit", tk.line, fields)
+        return ("var", tk.line, tk.text)
+
+
+class TsGen:
+    """typed generator: `gen(e, env, want)` returns (bind lines, Lean atom, type); the binds run left to right"""
+
+    def __init__(self, fname, selfty, structs, fns, lean_fn):
+        self.fname, self.selfty, self.structs, self.fns, self.lean_fn = fname, selfty, structs, fns, lean_fn
+        self.n, self.aux = 0, []
+
+    def tmp(self):
+        self.n += 1
+        return f"tmp{self.n}"
+
+    def err(self, line, msg):
+        fail(f"{self.fname}:{line}", msg + ": outside the translated subset [timesel]")
+
+    def call(self, line, key, args, env):
+        if key not in self.fns:
+            self.err(line, f"call of `{key[0]}::{key[1]}`, which is not translated")
+        lname, ptys, rty = self.fns[key]
+        if len(args) != len(ptys):
+            self.err(line, f"`{key[1]}` takes {len(ptys)} argument(s)")
+        binds, atoms = [], []
+        for a, pt in zip(args, ptys):
+            b, at, ty = self.gen(a, env, pt)
+            if ty != pt:
+                self.err(line, f"argument of type {ty}, expected {pt}")
+            binds += b
+            atoms.append(at)
+        v = self.tmp()
+        binds.append(f"bnd ({' '.join([lname] + atoms)}) fun {v} =>")
+        return binds, v, rty
+
+    def gen(self, e, env, want=None):
+        k, line = e[0], e[1]
+        if k == "atom":
+            if e[2] in ("true", "false"):
+                return [], e[2], "bool"
+            if e[2] == "None":
+                if not (isinstance(want, tuple) and want[0] == "opt"):
+                    self.err(line, "`None` where the expected type is not known")
+                return [], "none", want
+            if "self" not in env:
+                self.err(line, "`self` inside a closure")
+            return [], "self", env["self"]
+        if k == "var":
+            if e[2] not in env:
+                self.err(line, f"unknown name `{e[2]}`")
+            return [], ts_name(e[2]), env[e[2]]
+        if k == "num":
+            return [], str(e[2]), "usize"
+        if k == "ref":
+            return self.gen(e[2], env, want)
+        if k == "some":
+            b, a, t = self.gen(e[2], env, want[1] if isinstance(want, tuple) and want[0] == "opt" else None)
+            return b, f"(some {a})", ("opt", t)
+        if k == "range":
+            b1, a1, t1 = self.gen(e[2], env)
+            b2, a2, t2 = self.gen(e[3], env, t1)
+            if t1 != t2:
+                self.err(line, f"`a..b` between {t1} and {t2}")
+            return b1 + b2, f"(Range.mk {a1} {a2})", ("range", t1)
+        if k == "field":
+            b, a, t = self.gen(e[2], env)
+            if t not in self.structs or e[3] not in dict(self.structs[t]):
+                self.err(line, f"field `{e[3]}` of {t}")
+            return b, f"{a}.{e[3]}", dict(self.structs[t])[e[3]]
+        if k == "path":
+            if e[2] == "ExtendedTime" and e[3] in TS_CONSTS:
+                v = self.tmp()
+                return [f"bnd (ExtendedTime.{e[3]}) fun {v} =>"], v, "ET"
+            self.err(line, f"path `{e[2]}::{e[3]}`")
+        if k == "pathcall":
+            if e[2] == "Time" and e[3] in ("Fixed", "Variable") and len(e[4]) == 1:
+                pt = {"Fixed": "ET", "Variable": "VT"}[e[3]]
+                if (e[3], pt) not in self.structs["Time"]:
+                    self.err(line, f"`Time::{e[3]}` is not declared with the payload {pt}")
+                b, a, t = self.gen(e[4][0], env, pt)
+                if t != pt:
+                    self.err(line, f"`Time::{e[3]}` applied to {t}")
+                return b, f"(Time.{e[3]} {a})", "Time"
+            ty = self.selfty if e[2] == "Self" else {"TimeSpan": "Span", "TimeSelector": "Sel"}.get(e[2])
+            return self.call(line, (ty, e[3]), e[4], env)
+        if k == "method":
+            b, a, t = self.gen(e[2], env)
+            if e[3] == "len" and not e[4] and isinstance(t, tuple) and t[0] == "list":
+                return b, f"(Int.ofNat (List.length {a}))", "usize"
+            if e[3] == "first" and not e[4] and isinstance(t, tuple) and t[0] == "list":
+                return b, f"(List.head? {a})", ("opt", t[1])
+            if e[3] == "iter" and not e[4] and isinstance(t, tuple) and t[0] == "list":
+                return b, a, ("iter", t[1])
+            if (t, e[3]) in self.fns and t in ("Span", "Sel"):
+                b2, v, rty = self.call(line, (t, e[3]), e[4], env)
+                lname = self.fns[(t, e[3])][0]
+                b2[-1] = b2[-1].replace(f"bnd ({lname}", f"bnd ({lname} {a}", 1)
+                return b + b2, v, rty
+            self.err(line, f"method `.{e[3]}()` on {t}")
+        if k == "mclosure":
+            b, a, t = self.gen(e[2], env)
+            if e[3] != "all" or not (isinstance(t, tuple) and t[0] == "iter"):
+                self.err(line, f"adaptor `.{e[3]}(|{e[4]}| ..)` on {t}")
+            bb, ba, bt = self.gen(e[5], {e[4]: t[1]}, "bool")  # the closure captures nothing
+            if bt != "bool":
+                self.err(line, "the closure of `.all(..)` must return bool")
+            name = f"{self.lean_fn}.all{len(self.aux) + 1}"
+            self.aux.append((name, e[4], t[1], bb, ba, line))
+            v = self.tmp()
+            return b + [f"bnd ({name} {a}) fun {v} =>"], v, "bool"
+        if k == "eq":
+            b1, a1, t1 = self.gen(e[2], env)
+            b2, a2, t2 = self.gen(e[3], env, t1)
+            if t1 != t2:
+                self.err(line, f"`==` between {t1} and {t2}")
+            base = t1
+            while isinstance(base, tuple) and base[0] in ("opt", "list", "range"):
+                base = base[1]
+            if base not in ("usize", "bool", "ET", "Time") and base not in self.peq:
+                self.err(line, f"`==` on {t1}: `PartialEq` is not derived on its declaration")
+            return b1 + b2, f"(decide ({a1} = {a2}))", "bool"
+        if k == "and":
+            b1, a1, t1 = self.gen(e[2], env, "bool")
+            b2, a2, t2 = self.gen(e[3], env, "bool")
+            if t1 != "bool" or t2 != "bool":
+                self.err(line, "`&&` on non-booleans")
+            if not b2:
+                return b1, f"({a1} && {a2})", "bool"
+            v = self.tmp()  # the right operand runs only when the left one is true
+            inner = "\n".join("    " + x for x in b2 + [f".ok {a2}"])
+            return b1 + [f"bnd (if {a1} then\n{inner}\n  else .ok false) fun {v} =>"], v, "bool"
+        if k == "slit":
+            decl = self.structs[self.selfty]
+            if [f for f, _ in e[2]] != [f for f, _ in decl]:
+                self.err(line, "`Self { .. }` must give every field in declaration order")
+            binds, parts = [], []
+            for (f, fe), (_, ft) in zip(e[2], decl):
+                b, a, t = self.gen(fe, env, ft)
+                if t != ft:
+                    self.err(line, f"field `{f}`: {t}, declared {ft}")
+                binds += b
+                parts.append(f"{f} := {a}")
+            return binds, "{ " + ", ".join(parts) + " : " + TS_LEAN[self.selfty] + " }", self.selfty
+        self.err(line, f"expression `{k}`")
+
+
+def ts_read_struct(raw, fname, name):
+    """`#[derive(..)] pub struct NAME { pub f: T, .. }` -> (fields, derives, line)"""
+    for i, tk in enumerate(raw):
+        if tk.text == "struct" and raw[i + 1].text == name and raw[i + 2].text == "{":
+            p = TsParser(raw, fname, i + 3)
+            fields = []
+            while p.peek().text != "}":
+                if p.peek().text == "pub":
+                    p.eat("pub")
+                f = p.ident()
+                p.eat(":")
+                fields.append((f.text, p.type_until((",", "}"))))
+                if p.peek().text != "}":
+                    p.eat(",")
+            return fields, ts_derives(raw, i, fname), tk.line
+    fail(fname, f"`struct {name} {{` not found [timesel]")
+
+
+def ts_derives(raw, i, fname):
+    j = i - 1
+    if raw[j].text == "pub":
+        j -= 1
+    if raw[j].text != "]":
+        return set()
+    k = j
+    while raw[k].text != "#":
+        k -= 1
+        if k < 0:
+            fail(f"{fname}:{raw[i].line}", "attribute [timesel]")
+    texts = [t.text for t in raw[k:j]]
+    return {t for t in texts[4:] if t not in (",", "(", ")")} if texts[:3] == ["#", "[", "derive"] else set()
+
+
+def ts_read_enum_time(raw, fname):
+    for i, tk in enumerate(raw):
+        if tk.text == "enum" and raw[i + 1].text == "Time" and raw[i + 2].text == "{":
+            p = TsParser(raw, fname, i + 3)
+            vs = []
+            while p.peek().text != "}":
+                v = p.ident()
+                p.eat("(")
+                vs.append((v.text, p.type_until((")",))))
+                p.eat(")")
+                if p.peek().text != "}":
+                    p.eat(",")
+            if "PartialEq" not in ts_derives(raw, i, fname):
+                fail(f"{fname}:{tk.line}", "`enum Time` does not derive PartialEq [timesel]")
+            return vs, tk.line
+    fail(fname, "`enum Time {` not found [timesel]")
+
+
+def ts_fn(toks, fname, idx, selfty, structs, peq, fns, lean_ns, doc):
+    """translate the `fn` at token idx; returns (lines, signature entry)"""
+    p = TsParser(toks, fname, idx)
+    line = p.eat("fn").line
+    name = p.ident().text
+    p.eat("(")
+    params, env = [], {}
+    while p.peek().text != ")":
+        if p.peek().text == "&":
+            p.eat("&")
+            p.eat("self")
+            params.append(("self", selfty))
+        else:
+            x = p.ident()
+            p.eat(":")
+            t = p.type_until((",", ")"))
+            params.append((x.text, selfty if t == "Self" else t))
+        if p.peek().text != ")":
+            p.eat(",")
+    p.eat(")")
+    p.eat("->")
+    rty = p.type_until(("{",))
+    rty = selfty if rty == "Self" else rty
+    p.eat("{")
+    body = p.expr()
+    if p.peek().text != "}":
+        fail(p.where(), f"`{p.peek().text}`: the body must be one tail expression [timesel]")
+    env = dict(params)
+    lean_fn = f"{lean_ns}.{name}"
+    g = TsGen(fname, selfty, structs, fns, lean_fn)
+    g.peq = peq
+    binds, atom, t = g.gen(body, env, rty)
+    if t != rty:
+        fail(f"{fname}:{line}", f"`{name}` returns {t}, declared {rty} [timesel]")
+    L = []
+    for an, x, xt, bb, ba, aline in g.aux:
+        L.append(f"/-- the adaptor `.all(|{x}| ..)` of `{name}` ({fname}:{aline}): std's `Iterator::all` stops at the first `false` -/")
+        L.append(f"def {an} : List {ts_lean_ty(xt, False)} → R Bool")
+        L.append("  | [] => .ok true")
+        L.append(f"  | {ts_name(x)} :: rest =>")
+        L += ["    " + y for y in bb]
+        L.append(f"    if {ba} then {an} rest else .ok false")
+        L.append("")
+    rparams = ["self" if x == "self" else x for x, _ in params]
+    binder = " ".join(f"({ts_name(x)} : {ts_lean_ty(t_)})" for x, t_ in params)
+    L.append(f"/-- `{doc}::{name}` ({fname}:{line}) -/")
+    L.append(f"def {lean_fn} {binder} : R {ts_lean_ty(rty, False)} :=")
+    L += ["  " + y for y in binds]
+    L.append(f"  .ok {atom}")
+    L.append("")
+    return L, (lean_fn, [t_ for x, t_ in params if x != "self"], rty)
+
+
+def timesel_section(toks):
+    raw = toks.raw(F_TS_TIME)
+    st = toks(F_TS_TIME)
+    tf = toks(F_TS_TF)
+    use = ["use", "opening_hours_syntax", "::", "rules", "::", "time", "as", "ts", ";"]
+    if not any([t.text for t in tf[i:i + len(use)]] == use for i in range(len(tf) - len(use))):
+        fail(F_TS_TF, "`use opening_hours_syntax::rules::time as ts;` not found [timesel]")
+    sel_fields, sel_der, sel_line = ts_read_struct(raw, F_TS_TIME, "TimeSelector")
+    span_fields, span_der, span_line = ts_read_struct(raw, F_TS_TIME, "TimeSpan")
+    variants, time_line = ts_read_enum_time(raw, F_TS_TIME)
+    structs = {"Sel": sel_fields, "Span": span_fields, "Time": variants}
+    peq = {n for n, d in (("Sel", sel_der), ("Span", span_der)) if "PartialEq" in d}
+    L = ["-- [timesel extension] eighth increment: the predicates of the time selector (notes/RS2LEAN8-timesel.md)", "namespace TimeSel", ""]
+    L.append(f"/-- `enum Time` ({F_TS_TIME}:{time_line}), `#[derive(PartialEq, Eq)]` -/")
+    L.append("inductive Time")
+    for v, t in variants:
+        L.append(f"  | {v} (a : {ts_lean_ty(t)})")
+    L += ["  deriving DecidableEq, Repr", ""]
+    for nm, fields, ln, der in (("TimeSpan", span_fields, span_line, span_der), ("TimeSelector", sel_fields, sel_line, sel_der)):
+        L.append(f"/-- `struct {nm}` ({F_TS_TIME}:{ln}); `Dur` = `chrono::Duration`, abstract -/")
+        L.append(f"structure {nm} (Dur : Type) where")
+        for f, t in fields:
+            L.append(f"  {f} : {ts_lean_ty(t)}")
+        L += ["  deriving DecidableEq" if "PartialEq" in der else "", ""]
+    L += ["variable {Dur : Type} [DecidableEq Dur]", ""]
+    fns = {}
+    i0 = find_impl_fns(st, F_TS_TIME, "TimeSpan", None, ["fixed_range"])["fixed_range"]
+    l, sig = ts_fn(st, F_TS_TIME, i0, "Span", structs, peq, fns, "TimeSpan", "TimeSpan")
+    L += l
+    fns[("Span", "fixed_range")] = sig
+    i1 = find_impl_fns(tf, F_TS_TF, "ts::TimeSpan", None, ["is_immutable_full_day"], header=["impl", "TimeFilter", "for", "ts", "::", "TimeSpan"])["is_immutable_full_day"]
+    l, sig = ts_fn(tf, F_TS_TF, i1, "Span", structs, peq, fns, "TimeSpan", "<TimeSpan as TimeFilter>")
+    L += l
+    fns[("Span", "is_immutable_full_day")] = sig
+    i2 = find_impl_fns(tf, F_TS_TF, "ts::TimeSelector", None, ["is_immutable_full_day"], header=["impl", "TimeFilter", "for", "ts", "::", "TimeSelector"])["is_immutable_full_day"]
+    l, sig = ts_fn(tf, F_TS_TF, i2, "Sel", structs, peq, fns, "TimeSelector", "<TimeSelector as TimeFilter>")
+    L += l
+    i3 = find_impl_fns(st, F_TS_TIME, "TimeSelector", None, ["is_00_24"])["is_00_24"]
+    l, sig = ts_fn(st, F_TS_TIME, i3, "Sel", structs, peq, fns, "TimeSelector", "TimeSelector")
+    L += l
+    L += ["end TimeSel", ""]
+    return L
+# ---- end of the [timesel extension] ---------------------------------------------------------------------------------
 
 def main(argv):
     repo, out, overrides = REPO, OUT, {}
